@@ -35,8 +35,10 @@ Definition emb_doc (tbl : list blang) (e : env) (lid : N) (roots : list node) : 
 
 Section Class6.
   Variable L : lang.
-  Variable aok : attr -> bool.
-  Variable acan : attr -> bytes.
+  (* attributes are judged and canonicalised in their context: the element's tag and its whole attribute list (the OTA
+     icon rule looks at a sibling attribute) *)
+  Variable aok : tagname -> list attr -> attr -> bool.
+  Variable acan : tagname -> list attr -> attr -> bytes.
   Variable tok : bool -> option tagname -> bytes -> bool.
   Variable tev : bool -> option tagname -> bytes -> list P.event.
   Variable cok : bool -> option tagname -> bool.                       (* where a CDATA section may stand *)
@@ -47,7 +49,7 @@ Section Class6.
   Fixpoint tree_ok6 (depth : N) (first : bool) (par : option tagname) (n : node) : bool :=
     match n with
     | NElt tag attrs ch =>
-      (depth <=? 1000) && tag_cond L tag && forallb aok attrs &&
+      (depth <=? 1000) && tag_cond L tag && forallb (aok tag attrs) attrs &&
       (fix go (f : bool) (l : list node) : bool :=
          match l with [] => true | x :: r => tree_ok6 (depth + 1) f (Some tag) x && go false r end) true ch
     | NText c => tok first par c
@@ -63,7 +65,7 @@ Section Class6.
   Fixpoint events6 (with_attrs first : bool) (par : option tagname) (n : node) : list P.event :=
     match n with
     | NElt tag attrs ch =>
-      P.EvStartElt (tag_event tag) (if with_attrs then map (attr_event5 acan) attrs else [])
+      P.EvStartElt (tag_event tag) (if with_attrs then map (attr_event5 (acan tag attrs)) attrs else [])
         :: (fix go (f : bool) (l : list node) : list P.event :=
               match l with [] => [] | x :: r => events6 with_attrs f (Some tag) x ++ go false r end) true ch
         ++ [P.EvEndElt (tag_event tag)]
@@ -87,8 +89,8 @@ Section G6.
   Variable tb : bytes.
   Hypothesis HRES : forall x, In x TF -> okb (s_str x) = true -> S.str_at tb (s_off x) = Some (s_str x).
   Hypothesis HU32 : forall x, In x TF -> S.u32_okb (s_off x) = true.
-  Variable aok : attr -> bool.
-  Variable acan : attr -> bytes.
+  Variable aok : tagname -> list attr -> attr -> bool.
+  Variable acan : tagname -> list attr -> attr -> bytes.
   Variable tok : bool -> option tagname -> bytes -> bool.
   Variable tev : bool -> option tagname -> bytes -> list P.event.
   Variable cok : bool -> option tagname -> bool.
@@ -102,10 +104,10 @@ Section G6.
   Lemma dcur6_old first par dst me : dcur6 first par dst me -> dcur_ok first par dst me.
   Proof. intros H Hf p t o nm Ep. subst first. destruct (H p t o nm Ep) as [A B]. auto. Qed.
 
-  Hypothesis HA : forall l st na ws st' (dst : S.dstate),
-    sub TF st' -> forallb aok l = true -> in_cdata st = false -> S.ds_attrcp dst = attrcp st ->
+  Hypothesis HA : forall tag l st na ws st' (dst : S.dstate),
+    sub TF st' -> forallb (aok tag na) l = true -> cur_tag st = ctag_of (Some tag) -> in_cdata st = false -> S.ds_attrcp dst = attrcp st ->
     abs_attrs5 e st na l = Some (ws, st') ->
-    exists dst', S.den_attrs (S.mk_denv L tb) ws dst = Some (map (attr_event5 acan) l, dst') /\
+    exists dst', S.den_attrs (S.mk_denv L tb) ws dst = Some (map (attr_event5 (acan tag na)) l, dst') /\
                  S.ds_attrcp dst' = attrcp st' /\ S.ds_tagcp dst' = S.ds_tagcp dst /\ S.ds_cur dst' = S.ds_cur dst /\
                  tagcp st' = tagcp st /\ cur_tag st' = cur_tag st /\ in_cdata st' = false.
 
@@ -228,11 +230,11 @@ Section G6.
           destruct (e_use_strtbl e); [|discriminate]. destruct (strtbl_add _ _ _) as [[? ?] ?].
           injection AT as _ _ <-. split; [reflexivity|]. split; [exact Hic|]. intros p' t' o' nm' Ep. discriminate. }
       destruct C1 as (C1 & I1 & DC1).
-      assert (ATT : exists dst2, S.den_attrs (S.mk_denv L tb) ws dst0 = Some (if (has_attr_table e) then map (attr_event5 acan) attrs else [], dst2) /\
+      assert (ATT : exists dst2, S.den_attrs (S.mk_denv L tb) ws dst0 = Some (if (has_attr_table e) then map (attr_event5 (acan tag attrs)) attrs else [], dst2) /\
                      S.ds_attrcp dst2 = attrcp st2 /\ S.ds_tagcp dst2 = tagcp st2 /\ cur_tag st2 = ctag_of (Some tag) /\ in_cdata st2 = false /\
                      S.ds_cur dst2 = S.ds_cur dst0).
       { destruct (has_attr_table e).
-        - destruct (HA attrs st1 attrs ws st2 dst0 Hs2 HTa I1 R2 AA) as (dst2 & DA & A2 & B2 & C2 & T2 & K2 & I2).
+        - destruct (HA tag attrs st1 attrs ws st2 dst0 Hs2 HTa C1 I1 R2 AA) as (dst2 & DA & A2 & B2 & C2 & T2 & K2 & I2).
           exists dst2. split; [exact DA|]. split; [exact A2|]. split; [congruence|]. split; [congruence|]. split; [exact I2|exact C2].
         - injection AA as <- <-. exists dst0. split; [reflexivity|]. auto 6. }
       destruct ATT as (dst2 & DA & A2 & B2 & C2 & I2 & DC2).
